@@ -185,7 +185,7 @@ def plan(tier, seed):
         kw = dict(label="%s/d%d" % (cfg.label, depth), cfg=cfg, alphabet="alphabet", depth=depth,
                   oracles={"result", "ctxerr"}, hooks="probe", extra={"max_nest": 2})
         if depth >= 6:
-            kw["max_transitions"] = 300000
+            kw["max_transitions"] = 50000
         tasks += seqcheck.split(12 if depth <= 5 else 32, **kw)
     return tasks
 
